@@ -25,6 +25,8 @@ type c17Case struct {
 	C11  *c11Case  `json:"c11,omitempty"`
 	C04  *c04Case  `json:"c04,omitempty"`
 	C16  *c16Case  `json:"c16,omitempty"`
+	C07A *c07ACase `json:"c07a,omitempty"`
+	C07B *c07BCase `json:"c07b,omitempty"`
 }
 
 func c17LogPath() string {
@@ -124,6 +126,15 @@ func c17Run(c c17Case) (v vVerdict) {
 			return v
 		}
 		inner = c16Run(*c.C16)
+	case "disk":
+		// the writer threads: asynchronous writer over a gated disk, and the real LJH/OFF writers over a stalled FIFO
+		if c.C07A != nil {
+			inner = c07ARun(*c.C07A)
+		} else if c.C07B != nil {
+			inner = c07BRun(*c.C07B)
+		} else {
+			return v
+		}
 	default:
 		return v
 	}
@@ -149,7 +160,14 @@ func c17Run(c c17Case) (v vVerdict) {
 }
 
 func c17Gen(t *rapid.T) c17Case {
-	switch rapid.IntRange(0, 9).Draw(t, "kind") {
+	switch rapid.IntRange(0, 10).Draw(t, "kind") {
+	case 10:
+		if rapid.Bool().Draw(t, "diskA") {
+			c := c07AGen(t)
+			return c17Case{Kind: "disk", C07A: &c}
+		}
+		c := c07BGen(t)
+		return c17Case{Kind: "disk", C07B: &c}
 	case 0, 1, 2, 3:
 		c := c10Gen(t)
 		if c.Source == "abaco" || c.Source == "udp" || c.Source == "udp2" {
